@@ -233,7 +233,7 @@ Proof.
   intros f recs e r H Hin. destruct (index_file_records _ _ _ _ H Hin) as [B HB].
   exists B. split; [exact HB|].
   destruct HB as [pre [d [body [off' [rest [HL [HR [EB _]]]]]]]]. subst B.
-  pose proof (record_length f pre d body r off' rest HR) as Hlen.
+  pose proof (record_length pre d body r off' rest HR) as Hlen.
   split; [exact Hlen|]. intros i dflt Hi.
   apply (record_offset_correct f pre d body r off' rest HL HR). lia.
 Qed.
@@ -273,6 +273,9 @@ Lemma query_start_beyond_refuted :
     query_record false f r (Some s) (Some e) = QOk [98; 84]   (* "bT" *)
     /\ naive_bases (tl (lines f)) = [65;67;71;84].
 Proof.
-  exists f3_file, (mkfai [97] 4 3 4 5), 6, 7. vm_compute.
-  repeat split; try reflexivity. now left.
+  exists f3_file, (mkfai [97] 4 3 4 5), 6, 7.
+  split; [vm_compute; now left|].
+  split; [vm_compute; reflexivity|].
+  split; [reflexivity|]. split; [discriminate|].
+  split; vm_compute; reflexivity.
 Qed.
